@@ -160,6 +160,7 @@ type (
 	validatorDelWithdrawChange struct {
 		address *common.Address
 		prev    *WithdrawRecord
+		pos     int
 	}
 )
 
@@ -206,7 +207,15 @@ func (ch validatorAddUBDChange) dirtied() *common.Address {
 
 func (ch validatorDelWithdrawChange) revert(s *StateDB) {
 	if queue, err := s.getWithdrawQueue(); err == nil && queue != nil {
-		queue.Add(ch.prev)
+		// the queue is ordered content (it is hashed into the validator root): put the record
+		// back where it was, not at the end
+		pos := ch.pos
+		if pos < 0 || pos > len(queue.Records) {
+			pos = len(queue.Records)
+		}
+		queue.Records = append(queue.Records, nil)
+		copy(queue.Records[pos+1:], queue.Records[pos:])
+		queue.Records[pos] = ch.prev
 	}
 }
 
